@@ -287,12 +287,22 @@ def arr_setitem(m, a, k, v, node):
     m.note_write(a)
     k0 = m.force(k, node) if not isinstance(k, (tuple, slice)) else k
     if isinstance(k0, SArr) and k0.dtype == "bool":
-        sel = [i for i in range(a.shape[0]) if concretize_bool(m, k0.data[i], node)]
         v = m.force(v, node)
+        if a.ndim != 1 and k0.shape == a.shape and not isinstance(v, (SArr, SList, tuple)):
+            for i in range(len(a.data)):
+                if concretize_bool(m, k0.data[i], node):
+                    a.data[i] = v
+            return
+        sel = [i for i in range(a.shape[0]) if concretize_bool(m, k0.data[i], node)]
         if isinstance(v, (SList, tuple)):
             v = from_nested(m, v, node)
         if a.ndim != 1:
-            raise Unsupported("masked assignment on n-d array", node)
+            if k0.shape != a.shape or isinstance(v, SArr):
+                raise Unsupported("masked assignment on n-d array", node)
+            for i in range(len(a.data)):
+                if concretize_bool(m, k0.data[i], node):
+                    a.data[i] = v
+            return
         if isinstance(v, SArr):
             if v.shape != (len(sel),):
                 raise PyRaise("ValueError", node)
@@ -422,9 +432,18 @@ def np_mean(m, args, kw, node):
     n = len(a.data) if ax is None else a.shape[ax]
     if n == 0:
         raise Unsupported("mean of empty array (nan)", node)
+    keep = m.lit_value(kw["keepdims"]) if "keepdims" in kw else False
     if isinstance(s, SArr):
-        return SArr(s.shape, [m.binop(ast.Div(), x, n, node) for x in s.data], "real")
-    return m.binop(ast.Div(), s, n, node)
+        r = SArr(s.shape, [m.binop(ast.Div(), x, n, node) for x in s.data], "real")
+        if keep:
+            shp = list(a.shape)
+            shp[ax] = 1
+            r = SArr(shp, r.data, "real")
+        return r
+    r = m.binop(ast.Div(), s, n, node)
+    if keep:
+        return SArr((1,) * a.ndim, [r], "real")
+    return r
 
 
 def np_min(m, args, kw, node):
@@ -569,6 +588,76 @@ def np_repeat_method(m, a, args, kw, node):
     return SArr(out_shape, out, a.dtype)
 
 
+def _reshape(m, a, shp, node):
+    if len(shp) == 1 and isinstance(shp[0], (tuple, SList)):
+        shp = shp[0]
+    shp = [m.lit_value(x) for x in (shp.items if isinstance(shp, SList) else shp)]
+    n = len(a.data)
+    if -1 in shp:
+        known = 1
+        for x in shp:
+            if x != -1:
+                known *= x
+        if known == 0 or n % known:
+            raise PyRaise("ValueError", node)
+        shp = [n // known if x == -1 else x for x in shp]
+    k = 1
+    for x in shp:
+        k *= x
+    if k != n:
+        raise PyRaise("ValueError", node)
+    r = SArr(shp, a.data, a.dtype)
+    return r
+
+
+def np_reshape(m, args, kw, node):
+    a = from_nested(m, args[0], node)
+    return _reshape(m, a, [m.force(args[1], node)], node)
+
+
+def np_ones_like(m, args, kw, node):
+    a = from_nested(m, args[0], node)
+    return SArr(a.shape, [Fraction(1)] * len(a.data), "real")
+
+
+def np_zeros_like(m, args, kw, node):
+    a = from_nested(m, args[0], node)
+    return SArr(a.shape, [Fraction(0)] * len(a.data), "real")
+
+
+def np_where(m, args, kw, node):
+    if len(args) != 3:
+        raise Unsupported("np.where with one argument", node)
+    c, x, y = [m.force(v, node) for v in args]
+
+    def pick(cv, xv, yv):
+        t = m.truth(cv, node)
+        if isinstance(t, bool):
+            return xv if t else yv
+        return m.ite(t, xv, yv)
+
+    shapes = [v.shape for v in (c, x, y) if isinstance(v, SArr)]
+    if not shapes:
+        return pick(c, x, y)
+    shp = shapes[0]
+    for sh in shapes[1:]:
+        shp = broadcast_shapes(shp, sh)[0]
+
+    def bc(v):
+        if not isinstance(v, SArr):
+            return lambda idx: v
+        off = len(shp) - v.ndim
+
+        def get(idx):
+            return v.at(tuple(0 if v.shape[d] == 1 else idx[d + off] for d in range(v.ndim)))
+
+        return get
+
+    gc, gx, gy = bc(c), bc(x), bc(y)
+    out = [pick(gc(idx), gx(idx), gy(idx)) for idx in itertools.product(*[range(k) for k in shp])]
+    return SArr(shp, out, "real")
+
+
 def arr_attr(m, a, name, node):
     if name == "shape":
         return tuple(a.shape)
@@ -595,6 +684,7 @@ def arr_attr(m, a, name, node):
         "astype": lambda mach, args, kw, nd: SArr(a.shape, a.data, a.dtype),
         "repeat": lambda mach, args, kw, nd: np_repeat_method(mach, a, args, kw, nd),
         "flatten": lambda mach, args, kw, nd: SArr((len(a.data),), a.data, a.dtype),
+        "reshape": lambda mach, args, kw, nd: _reshape(mach, a, [mach.force(x, nd) for x in args], nd),
         "item": lambda mach, args, kw, nd: a.data[0],
     }
     if name in meths:
@@ -635,10 +725,283 @@ def install():
         "numpy.expand_dims": np_expand_dims,
         "numpy.linalg.norm": np_norm,
         "numpy.searchsorted": np_searchsorted,
+        "numpy.reshape": np_reshape,
+        "numpy.ones_like": np_ones_like,
+        "numpy.zeros_like": np_zeros_like,
+        "numpy.where": np_where,
     }
     for k, fn in table.items():
         E[k] = fn
+        E["autograd." + k] = fn
         notes[k] = "mini-numpy model for arrays of concrete shape (pyvc/npmodel.py)"
 
 
 install()
+
+
+# ---------------------------------------------------------------------------------------------------------------------
+# dense linear algebra on arrays of concrete shape (entries symbolic): exact formulas, no approximation
+# ---------------------------------------------------------------------------------------------------------------------
+
+
+def _as2d(m, v, node):
+    a = from_nested(m, v, node) if not isinstance(v, SArr) else v
+    return a
+
+
+def _add(m, x, y, node):
+    return m.binop(ast.Add(), x, y, node)
+
+
+def _mul(m, x, y, node):
+    return m.binop(ast.Mult(), x, y, node)
+
+
+def _sub(m, x, y, node):
+    return m.binop(ast.Sub(), x, y, node)
+
+
+def _div(m, x, y, node):
+    return m.binop(ast.Div(), x, y, node)
+
+
+def _sumprod(m, xs, ys, node):
+    acc = 0
+    for x, y in zip(xs, ys):
+        acc = _add(m, acc, _mul(m, x, y, node), node)
+    return acc
+
+
+def np_matmul(m, args, kw, node):
+    a = _as2d(m, m.force(args[0], node), node)
+    b = _as2d(m, m.force(args[1], node), node)
+    if a.ndim == 1 and b.ndim == 1:
+        if a.shape != b.shape:
+            raise PyRaise("ValueError", node)
+        return _sumprod(m, a.data, b.data, node)
+    if a.ndim == 2 and b.ndim == 1:
+        if a.shape[1] != b.shape[0]:
+            raise PyRaise("ValueError", node)
+        return SArr((a.shape[0],), [_sumprod(m, [a.at((i, k)) for k in range(a.shape[1])], b.data, node) for i in range(a.shape[0])], "real")
+    if a.ndim == 1 and b.ndim == 2:
+        if a.shape[0] != b.shape[0]:
+            raise PyRaise("ValueError", node)
+        return SArr((b.shape[1],), [_sumprod(m, a.data, [b.at((k, j)) for k in range(b.shape[0])], node) for j in range(b.shape[1])], "real")
+    if a.ndim != 2 or b.ndim != 2:
+        raise Unsupported("matmul of %d-d and %d-d arrays" % (a.ndim, b.ndim), node)
+    if a.shape[1] != b.shape[0]:
+        raise PyRaise("ValueError", node, msg="matmul shapes %s %s" % (a.shape, b.shape))
+    out = []
+    for i in range(a.shape[0]):
+        for j in range(b.shape[1]):
+            out.append(_sumprod(m, [a.at((i, k)) for k in range(a.shape[1])], [b.at((k, j)) for k in range(b.shape[0])], node))
+    return SArr((a.shape[0], b.shape[1]), out, "real")
+
+
+def np_transpose(m, args, kw, node):
+    a = _as2d(m, m.force(args[0], node), node)
+    if len(args) > 1 or kw:
+        raise Unsupported("transpose with axes", node)
+    return arr_attr(m, a, "T", node)
+
+
+def np_concatenate(m, args, kw, node):
+    parts = [_as2d(m, m.force(x, node), node) for x in m.iter_concrete(args[0], node)]
+    ax = m.lit_value(kw["axis"]) if "axis" in kw else (m.lit_value(args[1]) if len(args) > 1 else 0)
+    nd = parts[0].ndim
+    if any(p.ndim != nd for p in parts):
+        raise PyRaise("ValueError", node)
+    if ax < 0:
+        ax += nd
+    shp = list(parts[0].shape)
+    for p in parts[1:]:
+        for d in range(nd):
+            if d != ax and p.shape[d] != shp[d]:
+                raise PyRaise("ValueError", node, msg="concatenate shapes")
+    shp[ax] = sum(p.shape[ax] for p in parts)
+    out = []
+    for idx in itertools.product(*[range(k) for k in shp]):
+        off = idx[ax]
+        for p in parts:
+            if off < p.shape[ax]:
+                out.append(p.at(idx[:ax] + (off,) + idx[ax + 1 :]))
+                break
+            off -= p.shape[ax]
+    return SArr(shp, out, parts[0].dtype)
+
+
+def np_diag(m, args, kw, node):
+    a = _as2d(m, m.force(args[0], node), node)
+    if a.ndim == 2:
+        k = min(a.shape)
+        return SArr((k,), [a.at((i, i)) for i in range(k)], a.dtype)
+    n = a.shape[0]
+    return SArr((n, n), [a.data[i] if i == j else (Fraction(0) if a.dtype == "real" else 0) for i in range(n) for j in range(n)], a.dtype)
+
+
+def np_eye(m, args, kw, node):
+    n = m.lit_value(args[0])
+    return SArr((n, n), [Fraction(1) if i == j else Fraction(0) for i in range(n) for j in range(n)], "real")
+
+
+def solve_triangular(m, args, kw, node):
+    """scipy.linalg.solve_triangular(L, B, lower=True): forward substitution (exact); a zero pivot is a LinAlgError"""
+    L = _as2d(m, m.force(args[0], node), node)
+    B = _as2d(m, m.force(args[1], node), node)
+    lower = m.lit_value(kw.get("lower", False)) if "lower" in kw else False
+    trans = m.lit_value(kw["trans"]) if "trans" in kw else 0
+    if trans not in (0, "N"):
+        raise Unsupported("solve_triangular with trans", node)
+    if L.ndim != 2 or L.shape[0] != L.shape[1] or B.shape[0] != L.shape[0]:
+        raise PyRaise("ValueError", node)
+    n = L.shape[0]
+    vec = B.ndim == 1
+    cols = 1 if vec else B.shape[1]
+    X = [[None] * cols for _ in range(n)]
+    order = range(n) if lower else range(n - 1, -1, -1)
+    for j in range(cols):
+        for i in order:
+            rhs = B.data[i] if vec else B.at((i, j))
+            ks = range(i) if lower else range(i + 1, n)
+            for k in ks:
+                rhs = _sub(m, rhs, _mul(m, L.at((i, k)), X[k][j], node), node)
+            piv = L.at((i, i))
+            nz = m.truth(m.compare(ast.NotEq(), piv, 0, node), node)
+            if nz is False or (not isinstance(nz, bool) and not m.branch(nz, node)):
+                raise PyRaise("LinAlgError", node, msg="singular matrix")
+            X[i][j] = _div(m, rhs, piv, node)
+    if vec:
+        return SArr((n,), [X[i][0] for i in range(n)], "real")
+    return SArr((n, cols), [X[i][j] for i in range(n) for j in range(cols)], "real")
+
+
+def _install_linalg():
+    E = lib.EXTERNAL
+    table = {
+        "numpy.matmul": np_matmul,
+        "numpy.dot": np_matmul,
+        "numpy.transpose": np_transpose,
+        "numpy.concatenate": np_concatenate,
+        "numpy.diag": np_diag,
+        "numpy.eye": np_eye,
+        "scipy.linalg.solve_triangular": solve_triangular,
+        "autograd.scipy.linalg.solve_triangular": solve_triangular,
+    }
+    for k, fn in table.items():
+        E[k] = fn
+        if k.startswith("numpy."):
+            E["autograd." + k] = fn
+        lib.TRUSTED_NOTES[k] = "exact dense linear algebra on arrays of concrete shape (pyvc/npmodel.py)"
+    E["autograd.tracer.getval"] = lambda m, args, kw, node: args[0]
+    lib.TRUSTED_NOTES["autograd.tracer.getval"] = "identity outside differentiation"
+
+
+_install_linalg()
+
+
+# -- repository functions that only wrap LAPACK (trusted stubs, enabled per contract) --------------------------------------
+
+_CUSTOM_OP = "syne_tune.optimizer.schedulers.searchers.bayesopt.gpautograd.custom_op"
+
+
+def _stub_flatten_and_concat(m, args, kw, node):
+    x = _as2d(m, m.force(args[0], node), node)
+    s = m.force(args[1], node)
+    sv = s.data[0] if isinstance(s, SArr) else s
+    return SArr((len(x.data) + 1,), list(x.data) + [sv], "real")
+
+
+def _stub_add_jitter(m, args, kw, node):
+    """AddJitterOp(flatten_and_concat(x, sigsq_init)) = x + (sigsq_init + jitter) I with jitter >= 0 (0 assumed to be
+    tried first: jitter is left unconstrained above 0)"""
+    v = _as2d(m, m.force(args[0], node), node)
+    k = len(v.data) - 1
+    n = int(round(k**0.5))
+    if n * n != k:
+        raise PyRaise("AssertionError", node)
+    sig = v.data[-1]
+    key = tuple(str(m.z(x, "real")) if isinstance(x, Sym) else repr(x) for x in v.data)
+    cache = m.path_cache.setdefault("jitter", {})
+    if key not in cache:  # deterministic: the same matrix gets the same jitter
+        jit = m.fresh_scalar("real", "jitter")
+        m.assume(jit.t >= 0)
+        cache[key] = jit
+    jit = cache[key]
+    c = _add(m, sig, jit, node)
+    m.ghost_jitter.append(c)
+    return SArr((n, n), [(_add(m, v.data[i * n + j], c, node) if i == j else v.data[i * n + j]) for i in range(n) for j in range(n)], "real")
+
+
+def _stub_cholesky(m, args, kw, node):
+    """cholesky_factorization(A): some lower-triangular F with positive diagonal and F F^T = A (LAPACK potrf trusted);
+    the same argument gives the same factor"""
+    a = _as2d(m, m.force(args[0], node), node)
+    n = a.shape[0]
+    key = tuple(str(m.z(x, "real")) if isinstance(x, Sym) else repr(x) for x in a.data)
+    cache = m.path_cache.setdefault("chol", {})
+    if key in cache:
+        return cache[key]
+    F = []
+    for i in range(n):
+        for j in range(n):
+            if j > i:
+                F.append(Fraction(0))
+            else:
+                F.append(m.fresh_scalar("real", "chol[%d,%d]" % (i, j)))
+    Fa = SArr((n, n), F, "real")
+    for i in range(n):
+        m.assume(m.z(Fa.at((i, i)), "real") > 0)
+    P = np_matmul(m, [Fa, arr_attr(m, Fa, "T", node)], {}, node)
+    defs = m.path_cache.setdefault("chol_defs", [])
+    for i in range(n):
+        for j in range(n):
+            if j <= i:
+                m.assume(m.z(P.at((i, j)), "real") == m.z(a.at((i, j)), "real"))
+            defs.append((m.z(P.at((i, j)), "real"), m.z(a.at((i, j)), "real")))
+    cache[key] = Fa
+    return Fa
+
+
+lib.REPO_STUBS[_CUSTOM_OP + ":flatten_and_concat"] = _stub_flatten_and_concat
+lib.REPO_STUBS[_CUSTOM_OP + ":AddJitterOp"] = _stub_add_jitter
+lib.REPO_STUBS[_CUSTOM_OP + ":cholesky_factorization"] = _stub_cholesky
+lib.REPO_STUB_NOTES[_CUSTOM_OP + ":flatten_and_concat"] = "packs (matrix, scalar) into one vector"
+lib.REPO_STUB_NOTES[_CUSTOM_OP + ":AddJitterOp"] = "returns x + (sigsq_init + jitter) I for some jitter >= 0 (the search loop over LAPACK failures is not modelled)"
+lib.REPO_STUB_NOTES[_CUSTOM_OP + ":cholesky_factorization"] = "LAPACK potrf: a lower-triangular factor F, positive diagonal, F F^T = A; deterministic"
+
+
+def np_linalg_solve(m, args, kw, node):
+    """numpy.linalg.solve(A, B) for a matrix whose leading principal minors do not vanish (assumed: used for symmetric
+    positive definite A only): Gaussian elimination without pivoting, exact"""
+    A = _as2d(m, m.force(args[0], node), node)
+    B = _as2d(m, m.force(args[1], node), node)
+    n = A.shape[0]
+    if A.ndim != 2 or A.shape[1] != n or B.shape[0] != n:
+        raise PyRaise("ValueError", node)
+    vec = B.ndim == 1
+    cols = 1 if vec else B.shape[1]
+    M = [[A.at((i, j)) for j in range(n)] + [(B.data[i] if vec else B.at((i, j))) for j in range(cols)] for i in range(n)]
+    for k in range(n):
+        piv = M[k][k]
+        if isinstance(piv, Sym):
+            m.assume(m.z(piv, "real") != 0)
+        elif piv == 0:
+            raise PyRaise("LinAlgError", node)
+        for i in range(k + 1, n):
+            f = _div(m, M[i][k], piv, node)
+            M[i] = [_sub(m, M[i][j], _mul(m, f, M[k][j], node), node) for j in range(n + cols)]
+    X = [[None] * cols for _ in range(n)]
+    for j in range(cols):
+        for i in range(n - 1, -1, -1):
+            rhs = M[i][n + j]
+            for k in range(i + 1, n):
+                rhs = _sub(m, rhs, _mul(m, M[i][k], X[k][j], node), node)
+            X[i][j] = _div(m, rhs, M[i][i], node)
+    if vec:
+        return SArr((n,), [X[i][0] for i in range(n)], "real")
+    return SArr((n, cols), [X[i][j] for i in range(n) for j in range(cols)], "real")
+
+
+lib.EXTERNAL["numpy.linalg.solve"] = np_linalg_solve
+lib.TRUSTED_NOTES["numpy.linalg.solve"] = "exact Gaussian elimination (non-vanishing leading minors assumed: SPD arguments only)"
+lib.EXTERNAL["autograd.builtins.isinstance"] = lambda m, args, kw, node: __import__("pyvc.builtins", fromlist=["x"]).BUILTINS["isinstance"].fn(m, args, kw, node)
